@@ -86,7 +86,8 @@ pub async fn resolve_host_with_cache(host: &str, port: u16) -> Result<SocketAddr
 
     if let Some(addr) = DNS_CACHE.get(host).await {
         DNS_CACHE.advance(host).await;
-        return Ok(addr);
+        // cached entries carry the port of the request that filled them: use this request's port
+        return Ok(SocketAddr::new(addr.ip(), port));
     }
 
     let resolver_opt = DNS_RESOLVER.read().await.clone();
